@@ -227,6 +227,7 @@ def check(res):
                            "first_version": genprop_source(v_long if first_tag == "long" else v_short), "second_version": genprop_source(v_long if second_tag == "long" else v_short)})
             return
         shutil.rmtree(os.path.join(base, "edit_" + first_tag), ignore_errors=True)
+    evals += hostile_surroundings(res, gv, base)
     # --- declaration and file order inside a package must not matter for a struct's own file
     for r in range(3 if quick else 12):
         sc = dict(pkgs[r % len(pkgs)])
@@ -268,6 +269,67 @@ def check(res):
         "race_runs": 2 if quick else 10, "races": races,
         "samples": [{"packages": [s["id"] for s in pkgs], "gomaxprocs": [1, 2, 16], "repetitions": reps}],
     })
+
+
+def hostile_surroundings(res, gv, base):
+    """the file generated for a struct must not depend on OTHER Go files: siblings in the package directory or files in the
+    parent of the working directory that import look-alike packages (demo/lookalike/slices, .../math) and use the same symbols"""
+    d = os.path.join(base, "hostile")
+    files = {
+        "go.mod": "module hs\n\ngo 1.24.3\n\nrequire github.com/sivchari/govalid v0.0.0\n\nreplace github.com/sivchari/govalid => %s\n" % REPO,
+        "lookalike/slices/slices.go": "package slices\n\nfunc Contains(s []string, v string) bool { return false }\n",
+        "lookalike/math/math.go": "package math\n\nconst MaxInt16 = 1000\n",
+        "lookalike/strings/strings.go": "package strings\n\nfunc Contains(s, sub string) bool { return false }\nfunc HasPrefix(s, p string) bool { return false }\n",
+        "pkcel/x.go": "package pkcel\n\ntype T struct {\n\t//govalid:cel=value in['a','b']\n\tV string\n\t//govalid:cel=value.contains('x') && value.startsWith('x')\n\tW string\n\t//govalid:cel=value in this.L\n\tX string\n\tL []string\n}\n",
+        "pkq/x.go": "package pkq\n\ntype Q struct {\n\t//govalid:lte=math.MaxInt16\n\tN int\n\t//govalid:maxlength=3\n\tS string\n}\n",
+    }
+    hostile = {
+        "pkcel/sib.go": "package pkcel\n\nimport (\n\t\"hs/lookalike/slices\"\n\t\"hs/lookalike/strings\"\n)\n\nvar _ = slices.Contains(nil, \"\") || strings.Contains(\"\", \"\") || strings.HasPrefix(\"\", \"\")\n",
+        "pkq/sib.go": "package pkq\n\nimport \"hs/lookalike/math\"\n\nvar _ = math.MaxInt16\n",
+    }
+    parent = {"root.go": "package hs\n\nimport (\n\t\"hs/lookalike/slices\"\n\t\"hs/lookalike/strings\"\n)\n\nvar _ = slices.Contains(nil, \"\") || strings.Contains(\"\", \"\")\n"}
+
+    def put(fs):
+        for rel, c in fs.items():
+            os.makedirs(os.path.dirname(os.path.join(d, rel)) or d, exist_ok=True)
+            open(os.path.join(d, rel), "w").write(c)
+    put(files)
+    shutil.copy(os.path.join(REPO, "go.sum"), os.path.join(d, "go.sum"))
+    rc, log = gen(gv, d, ["./..."])
+    want = outputs(d)
+    if rc != 0 or len(want) < 2:
+        res.violation({"kind": "generation-failed", "what": "govalid failed on the packages of the hostile-surroundings step", "log": log[-1500:]})
+        return 0
+    n = 0
+    # (b) siblings in the package directories
+    clear_outputs(d)
+    put(hostile)
+    gen(gv, d, ["./..."])
+    got = outputs(d)
+    n += 1
+    if got != want:
+        diff = sorted(k for k in set(got) | set(want) if got.get(k) != want.get(k))
+        res.violation({"kind": "spec-violation", "files": diff, "got": {k: got.get(k, b"").decode("utf8", "replace")[:1500] for k in diff[:2]},
+                       "want": {k: want.get(k, b"").decode("utf8", "replace")[:1500] for k in diff[:2]},
+                       "what": "adding to the package directory a file that nobody asked govalid to look at (it imports look-alike packages) changed the generated file of an unedited struct"})
+        return n
+    # (c) the same package generated from inside its directory, with a look-alike importer in the parent of the working directory
+    clear_outputs(d)
+    for rel in hostile:
+        os.remove(os.path.join(d, rel))
+    put(parent)
+    gen(gv, os.path.join(d, "pkcel"), ["."], cwd=os.path.join(d, "pkcel"))
+    got = {k: v for k, v in outputs(d).items() if k.startswith("pkcel/")}
+    wantc = {k: v for k, v in want.items() if k.startswith("pkcel/")}
+    n += 1
+    if got != wantc:
+        diff = sorted(k for k in set(got) | set(wantc) if got.get(k) != wantc.get(k))
+        res.violation({"kind": "spec-violation", "files": diff, "got": {k: got.get(k, b"").decode("utf8", "replace")[:1500] for k in diff[:2]},
+                       "want": {k: wantc.get(k, b"").decode("utf8", "replace")[:1500] for k in diff[:2]},
+                       "what": "`govalid .` inside the package directory and `govalid ./...` from the module root produce different files for the same struct "
+                               "(a Go file in the parent of the working directory imports a look-alike package)"})
+    shutil.rmtree(d, ignore_errors=True)
+    return n
 
 
 def genprop_source(sc):
